@@ -48,3 +48,42 @@ pub fn crypto_with(node_id: NodeId, seed: &[u8], trusted: &[Vec<u8>], speeds: &[
 pub fn seed_public_key(seed: &[u8]) -> Vec<u8> {
     Ed25519KeyPair::from_seed_unchecked(seed).unwrap().public_key().as_ref().to_vec()
 }
+
+pub struct PcDump {
+    pub init_stage: Option<u8>,
+    pub init_retries: usize,
+    pub init_close: usize,
+    pub init_has_core: bool,
+    pub init_has_ecdh: bool,
+    pub rot: Option<(u64, bool, bool, u64, bool)>,
+    pub unencrypted: bool,
+    pub core: Option<(usize, bool)>,
+    pub counter: usize,
+}
+
+pub fn pc_dump<P: Payload>(p: &PeerCrypto<P>) -> PcDump {
+    PcDump {
+        init_stage: p.init.as_ref().map(|i| crate::crypto::verif_init::stage(i)),
+        init_retries: p.init.as_ref().map(|i| crate::crypto::verif_init::retries(i)).unwrap_or(0),
+        init_close: p.init.as_ref().map(|i| crate::crypto::verif_init::close_time(i)).unwrap_or(0),
+        init_has_core: p.init.as_ref().map(|i| crate::crypto::verif_init::has_core(i)).unwrap_or(false),
+        init_has_ecdh: p.init.as_ref().map(|i| crate::crypto::verif_init::has_ecdh(i)).unwrap_or(false),
+        rot: p.rotation.as_ref().map(|r| crate::crypto::verif_rotate::dump(r)),
+        unencrypted: p.unencrypted,
+        core: p.core.as_ref().map(|c| (crate::crypto::verif_core::current_key(c), crate::crypto::verif_core::nonce_half(c))),
+        counter: p.rotate_counter,
+    }
+}
+
+pub fn pc_set_counter<P: Payload>(p: &mut PeerCrypto<P>, v: usize) {
+    p.rotate_counter = v;
+}
+
+pub fn pc_core_mut<P: Payload>(p: &mut PeerCrypto<P>) -> Option<&mut CryptoCore> {
+    p.core.as_mut()
+}
+
+/// an established, unencrypted PeerCrypto without handshake object (for interval tests)
+pub fn pc_plain<P: Payload>(node_id: NodeId) -> PeerCrypto<P> {
+    PeerCrypto { node_id, init: None, rotation: None, unencrypted: true, core: None, rotate_counter: 0 }
+}
